@@ -1113,8 +1113,10 @@ class Oracle:
                             pass
                     elif ev == "nokeep-run":
                         solver.options["keep_runs_results"] = False
-                        P.run(solver, 2, 9)
-                        solver.options["keep_runs_results"] = True
+                        try:
+                            P.run(solver, 2, 9)
+                        finally:
+                            solver.options["keep_runs_results"] = True
                     elif ev == "experiment":
                         nsc = len(spec["cops"])
                         m = self.rng.choice([2, 4])
@@ -1348,6 +1350,18 @@ class Oracle:
                         self.dist["solver-error"] = self.dist.get("solver-error", 0) + 1
                         continue
                     # same seeds as the base run, which succeeded for each of them
+                    import traceback
+                    tb = traceback.format_exc()
+                    if "reduce_expect" in tb and "Cannot cast ufunc" in tb:
+                        self.ctx.violation(
+                            "multitrajresult._TrajectorySum.reduce_expect",
+                            "sum-dtype-fixed-by-first-trajectory",
+                            "run() raises a casting error when a later trajectory has complex "
+                            "expectation values and the first one real: the seeds work one by "
+                            "one and with the complex trajectory first, the ensemble fails in "
+                            "any other order",
+                            {"spec": spec, "variant": v, "error": repr(e)[:300]})
+                        continue
                     self.bad(spec, v, "exception:%s" % type(e).__name__,
                              {"error": repr(e)[:300]})
                 key = "%s/%s" % (spec["kind"], v)
